@@ -66,9 +66,9 @@ def spec_rank_band(s, delta, rmax):
 
 class Prop:
     ID = "C05"
-    LEVEL = "exploration"
-    COQ_HEADER = ""
-    CHECK_FN = ""
+    LEVEL = "proof"
+    COQ_HEADER = "From TN Require Import Harness.H_C05.\nFrom Coq Require Import QArith.\nOpen Scope Q_scope.\n"
+    CHECK_FN = "check"
     RULE = ("dense arrays with 2..4 modes of size 1..5 in four classes (generic integer, exactly low-rank, decaying "
             "spectrum = sum_k 0.3^k of integer rank-1 terms, zero) x requested TT rank 1..6 (scalar / per-bond list) and "
             "Tucker rank 1..5 (scalar / per-mode list) x algorithm svd/eig; matrices m x n with m,n in 1..8 (generic, "
@@ -87,7 +87,8 @@ class Prop:
                    "value is required, not a particular minimiser",
                    "for a zero matrix truncated_svd's documented rank-1 zero factors are accepted (no orthonormal side exists)",
                    "CP-ALS uses torch's global RNG for completion/initialisation; the runner seeds it from the case"]
-    THEOREMS = []
+    THEOREMS = ["C05_rank_choice_sound", "C05_rank_choice_minimal", "C05_rank_bounds", "C05_error_is_discarded_energy",
+                "C05_product_independent_of_side"]
 
     # ------------------------------------------------------------------ generation
     def _array(self, rng, cls, N=None):
@@ -366,4 +367,48 @@ class Prop:
         return "%s;%s;%s;%s;%s" % (case["op"], arr.shape, case["ranks"], case["alg"], h)
 
     def coq_term(self, case, res):
-        return None
+        """oracle replay of truncated_svd(algorithm='svd'): torch.linalg.svd is intercepted; the model recomputes the
+        rank decision, the zero special case and the two factors from the recorded (U, s)"""
+        from fractions import Fraction
+        if case["op"] != "tsvd" or not res.get("ok") or case["alg"] != "svd":
+            return None
+        M = torch.tensor(case["M"], dtype=torch.float64)
+        if M.dim() != 2 or max(M.shape) > 6:
+            return None
+        recs = []
+        orig = torch.linalg.svd
+        def wrap(A, *a, **k):
+            out = orig(A, *a, **k); recs.append((out[0].detach().clone(), out[1].detach().clone())); return out
+        kw = {"rmax": case["rmax"], "left_ortho": case["left_ortho"], "algorithm": "svd"}
+        if case["mode"] == "delta": kw["delta"] = case["val"]
+        elif case["mode"] == "eps": kw["eps"] = case["val"]
+        torch.linalg.svd = wrap
+        try:
+            U, V = tn.truncated_svd(M, **kw)
+        except Exception:
+            return None
+        finally:
+            torch.linalg.svd = orig
+        if len(recs) != 1:
+            return None
+        Us, ss = recs[0]
+        delta = case["val"] if case["mode"] == "delta" else (case["val"] * float(torch.norm(M)) if case["mode"] == "eps" else 0.0)
+        S = (ss ** 2).tolist()
+        # a rank decision that hinges on round-off (a tail sum within 1e-9 relative of the budget) is not replayed exactly
+        tails = np.cumsum(S[::-1]); d2 = delta ** 2
+        if any(abs(t - d2) <= 1e-9 * max(d2, t, 1e-300) for t in tails):
+            return None
+        # with left_ortho=False the kept reciprocal singular values amplify round-off of U^T M: the implementation's
+        # own output is round-off dominated when a kept value is tiny, so it cannot be compared with exact arithmetic
+        r_kept = U.shape[1]
+        if not case["left_ortho"] and float(ss[0]) > 0 and any(float(x) < 1e-7 * float(ss[0]) for x in ss[:r_kept]):
+            return None
+        D = 2 ** 40
+        ql = lambda x: "(%d#%d)" % (round(float(x) * D), D)
+        qx = lambda x: qlit(Fraction(float(x)))          # exact value of the double (rank decisions see s exactly)
+        a2 = lambda A: "(mkA2 %d %d %s)" % (A.shape[0], A.shape[1], coq_list(A.reshape(-1).tolist(), ql, "Q"))
+        rmax = case["rmax"] if case["rmax"] is not None else 1000
+        d2q = Fraction(d2).limit_denominator(10 ** 18)
+        return "mkCase %s %s %d%%nat %s (mkSvd %s %s) %s %s" % (
+            a2(M), qlit(d2q), min(int(rmax), 1000), "true" if case["left_ortho"] else "false",
+            a2(Us), coq_list(ss.tolist(), qx, "Q"), a2(U.detach()), a2(V.detach()))
